@@ -211,7 +211,71 @@ def check_dense(case):
 
 from ..refsem import step_at                                       # noqa: E402
 
+
+@st.composite
+def dense_lip_cases(draw, tier, kind):
+    p = (DENSE if kind == 'ct_off' else DENSE_PAST).copy(const_pred_only=True, **DBOOL)
+    c = draw(ct_cases(p, tier, max_samples=6))
+    c['kind'] = kind
+    c['pert'] = {v: [draw(st.integers(-63, 63)) for _ in range(len(c['signals'][v]))] for v in c['vars']}
+    c['t2'] = draw(st.integers(0, 40))        # the instant, in half cells
+    return c
+
+
+def check_dense_lip(case):
+    f = from_json(case['formula'])
+    kind = case['kind']
+    vs = list(case['vars'])
+    q = case_q(case)
+    sig = norm_signals(case)
+    used = F.fvars(f)
+    labels = ['kind:' + kind, 'lipschitz'] + feature_labels(f)
+    if not used:
+        return DISCARD('no-variable', labels)
+    sig = {v: sig[v] for v in vs if v in used}
+    feed = list(sig)
+    text = dense_text(f, q)
+    if kind == 'ct_off':
+        o = run_ct_off(text, feed, to_time(sig, q))
+        out = o[1] if o[0] == 'ok' else None
+    else:
+        o = run_ct_on(text, feed, [to_time(sig, q)])
+        out = o[1][0] if o[0] == 'ok' else None
+    if o[0] != 'ok' or check_shape(out) or not out:
+        return DISCARD('exception-or-shape(C04/C05/C17)', labels)
+    kend = min(s[-1][0] for s in sig.values())
+    hi = min(float(kend * q), out[-1][0])
+    t = float(Fraction(case['t2'], 2) * q)
+    if t > hi or t < out[0][0]:
+        return PASS(False, labels + ['instant-outside'])
+    r = step_at(out, t)
+    if r is None or r != r or r == 0:
+        return PASS(False, labels)
+    scale = abs(r) if abs(r) != float('inf') else 1000.0
+    sig2 = {}
+    for v in feed:
+        s2 = []
+        for i, (k, x) in enumerate(sig[v]):
+            y = x + scale * (case['pert'][v][i] / 64.0)
+            if not abs(y - x) < abs(r):
+                return DISCARD('perturbation-rounding', labels)
+            s2.append((k, y))
+        sig2[v] = s2
+    try:
+        K0, _Kend, sat2 = bool_ct(f, sig2)
+    except (Undefined, NotNumeric):
+        return DISCARD('undefined', labels)
+    cell = int(math.floor(Fraction(case['t2'], 2))) - K0
+    want = r > 0
+    if sat2[cell] is not want:
+        return FAIL('lipschitz:' + kind, 'spec: %s   [%s]\nsignals: %s\nresult: %r\nat t=%g rho=%g; perturbed signals %s (all |delta| < |rho|) have verdict %s' % (
+            text, kind, to_time(sig, q), out, t, r, to_time(sig2, q), sat2[cell]), labels)
+    return PASS(0 < abs(r) < float('inf') and F.n_temporal(f) >= 1, labels)
+
+
 LANES = [
+    Lane('lip_ct_off', lambda tier: dense_lip_cases(tier, 'ct_off'), check_dense_lip, 1500, 20000, ct_candidates),
+    Lane('lip_ct_on', lambda tier: dense_lip_cases(tier, 'ct_on'), check_dense_lip, 1000, 15000, ct_candidates),
     Lane('sign_ct_off', lambda tier: dense_cases(tier, 'ct_off'), check_dense, 2500, 40000, ct_candidates),
     Lane('sign_ct_on', lambda tier: dense_cases(tier, 'ct_on'), check_dense, 1500, 20000, ct_candidates),
     Lane('sign_dt_off', lambda tier: cases(tier, 'dt_off', False), check, 4000, 60000, candidates),
